@@ -84,7 +84,8 @@ def run(tier):
                 bad.append(("elements_vs_indexing", o.get("units"), o["units_by_index"]))
             if o.get("vals") != exp["vals"]:
                 bad.append(("values", exp["vals"], o.get("vals")))
-            if "copy_vals" in o and (o["copy_vals"] != exp["vals"] or o.get("copy_shape") != exp["shape"]):
+            # (a view without elements may report extents no array can have, e.g. 2x0: its copy is only asked to be element-free)
+            if "copy_vals" in o and (o["copy_vals"] != exp["vals"] or (exp["vals"] and o.get("copy_shape") != exp["shape"])):
                 bad.append(("array_constructed_from_the_view", [exp["shape"], exp["vals"]], [o.get("copy_shape"), o["copy_vals"]]))
             if exp["cast"] == "transformed_refb":
                 # write-through: exactly the designated b members changed, in canonical order
